@@ -89,3 +89,15 @@ Proof.
   destruct l as [|a l]; [left; reflexivity|]. right.
   destruct (@exists_last A (a :: l)) as (l' & x & E); [discriminate|]. eauto.
 Qed.
+
+Lemma in_firstn {A} (l : list A) n x : In x (firstn n l) -> In x l.
+Proof. revert n; induction l as [|a l IH]; intros [|n] Hin; cbn in *; try contradiction. destruct Hin as [->|Hin]; [now left|right; eauto]. Qed.
+
+Lemma in_skipn {A} (l : list A) n x : In x (skipn n l) -> In x l.
+Proof. revert n; induction l as [|a l IH]; intros [|n] Hin; cbn in *; try contradiction; auto. right; eauto. Qed.
+
+Lemma app_eq_len {A} (a c b d : list A) : a ++ b = c ++ d -> length a = length c -> a = c /\ b = d.
+Proof.
+  revert c; induction a as [|x a IH]; intros [|y c] E Hl; cbn in *; try discriminate; [tauto|].
+  injection E as -> E. destruct (IH c E ltac:(lia)) as [-> ->]. tauto.
+Qed.
